@@ -347,6 +347,8 @@ def redirection_sees_decoded_letters(ctx, rule):
 # model table: the two composition equalities on one url per spelling class
 # ----------------------------------------------------------------------
 COMPOSE_CELLS = [
+    # a control character inside the escape of a redirect key (open finding: the pre-pass of infer_redirection decodes before it cleans)
+    "http://x.com/p?%7\x005rl=http%3A%2F%2Fb.com",
     # plain / case / default port / userinfo / dot segments / index page / AMP markers
     "http://x.com", "http://WWW.X.com/A/../b/./c/", "http://u:p@x.com:80/index.html", "http://x.com:8080/Index.html", "http://x.com/a/amp/", "http://x.com/a%2Eamp", "http://amp-x.com/a.amp.html", "http://m.x.co.uk/p?amp=1&a=2",
     # escapes canonicalize_url removes: unreserved characters in path, keys, values, fragment
@@ -396,7 +398,8 @@ def composition_table(ctx, rule):
                     a = call(repo, mod, fname, u, platform_aware=pa)
                     b = call(repo, mod, fname, cu, platform_aware=pa)
                     n += 1
-                    ctx.ob(rule, "%s/%s/pa=%d" % (fname, u, pa), a == b,
+                    shown = u if u.isprintable() else u.encode("unicode_escape").decode("ascii")  # keys and report lines stay printable
+                    ctx.ob(rule, "%s/%s/pa=%d" % (fname, shown, pa), a == b,
                            "%s(%r%s) is %r but %s of its canonical form %r is %r: canonicalizing first changes the aggregate" % (fname, u, ", platform_aware=True" if pa else "", a, fname, cu, b), site, witness=u,
                            sample="%r -> %r" % (u, a) if pa and "redirect" in u else None)
         except Unknown as e:
